@@ -31,7 +31,9 @@ type integer interface {
 type float interface{ ~float32 | ~float64 }
 type cmplxT interface{ ~complex64 | ~complex128 }
 type number interface{ integer | float | cmplxT }
-type ordered interface{ integer | float | ~string | ~uintptr }
+type ordered interface {
+	integer | float | ~string | ~uintptr
+}
 
 func gAdd[T number](a, b T) T { return a + b }
 func gSub[T number](a, b T) T { return a - b }
